@@ -150,7 +150,7 @@ def gen_one(rng, off, fadt_dump, force=None):
     else:
         if rng.random() < 0.1:
             align = rng.choice([1, 8, 32])
-        nslots = rng.choice([1, 2, 3, 4, 5, 6, 8, 16, 40, 64, 256, 300])
+        nslots = rng.choice([1, 2, 3, 4, 4, 5, 6, 8, 8, 16, 16, 40, 64, 64, 256, 300])
         if align == 1:
             nslots *= 8
         low = WIN_ZONE + 16 * rng.randrange(0, 512)
@@ -175,7 +175,7 @@ def gen_one(rng, off, fadt_dump, force=None):
         for j in range(k, k + (nbytes + align - 1) // align):
             taken.add(j)
 
-    for _ in range(rng.choice([0, 0, 1, 3])):     # garbage in the window
+    for _ in range(rng.choice([0, 0, 1, 3]) if nsl > 6 else 0):     # garbage in the window
         a = rng.randrange(low, hi + 1)
         n = min(rng.randrange(1, 64), hi + 1 - a)
         k0, k1 = (a - low) // align, (a + n - 1 - low) // align
@@ -446,7 +446,7 @@ class C14(flow.Spec):
     partial = []
 
     def gen_cases(self, rng, tier):
-        n = {'quick': 700, 'thorough': 16000, 'search': 2500}[tier]
+        n = {'quick': 2000, 'thorough': 40000, 'search': 3000}[tier]
         off = kernel_offsets()
         dump = repo_fadt()
         out = []
